@@ -222,7 +222,7 @@ Proof.
     + apply ME. apply A; assumption.
     + rewrite (OWN s Hs). unfold fE. rewrite nstate_snoc_same. exact He.
     + apply ME. destruct (si_p _ _ SI' _ _ _ Hin) as (Hsok & _). apply signed_ref_E; auto; [apply (Hauth _ _ _ eq_refl); assumption|rewrite Ty; discriminate].
-  - intros v en Hin Hgs. destruct (ss_pp _ _ _ _ S v en Hin) as [Hold|[(Hs & Hv & He)|[(r & s & b & wm' & sh' & -> & -> & Hv)|(nty & ninst & nh & nvw & vs & sg & pp & pps & b & wm' & sh' & -> & -> & Hv)]]].
+  - intros v en Hin Hgs. destruct (ss_pp _ _ _ _ S v en Hin) as [Hold|[(Hs & Hv & He)|[(r & s & b & wm' & sh' & -> & -> & Hv & _)|(nty & ninst & nh & nvw & vs & sg & pp & pps & b & wm' & sh' & -> & -> & Hv & _)]]].
     + apply ME. apply B; assumption.
     + rewrite (OWN _ Hs). unfold fE. rewrite nstate_snoc_same. exact He.
     + destruct (si_pp _ _ SI' _ _ Hin) as [[PV PT _ _ PS _ _] _]. cbn [pe_ref pe_snd] in *. apply ME. rewrite <- Hv.
@@ -642,7 +642,7 @@ Proof.
       { intros j u y' Hgj Hu Hf. apply (LBEold (LV ++ AH)); [apply incl_appr, incl_refl|exact Hgj|exact Hf|intros _; lia]. }
       assert (LBV1 : forall j vt, good j -> fV (run ++ [(i0, e)]) j vt -> v_view vt = v -> In (AVote j v (lock_of vt)) (LV ++ AH)).
       { intros j vt Hgj Hf <-. apply (LBV (LV ++ AH)); [apply incl_refl|exact Hgj|exact Hf]. }
-      destruct ORG as [->|[(to & r & s & Hin & Hnot & Hrv & Hrh)|(to & ty & ii & hh & vs & sg & pp & pps & b & Hin & F1 & F2 & F3 & F4 & F5)]]; [lia| |].
+      destruct ORG as [(to & r & s & Hin & Hnot & Hrv & Hrh)|(to & ty & ii & hh & vs & sg & pp & pps & b & Hin & F1 & F2 & F3 & F4 & F5)].
       + (* a PREPARE: the step handled a NEW_VIEW with a valid certificate *)
         destruct e as [m wm shut|h0 v0 wm shut].
         2:{ exfalso. apply Hnot. apply (move_nomp (cfg i0) wm shut x h0 v0 (OSend to (MP r s)) eq_refl). exact Hin. }
